@@ -159,7 +159,7 @@ Proof.
 Qed.
 
 Lemma overlay_fx t b p :
-  Good t -> Good b -> s_box (m_sizing b) = true -> overlay_given_fx p ->
+  Good t -> (exists nb, GoodN nb b) -> s_box (m_sizing b) = true -> overlay_given_fx p ->
   overlay_top_ok (m_sizing t) p = true -> GoodFx (overlay_sem t b p).
 Proof.
   intros Gt Gb Hb Hg Hok.
